@@ -35,7 +35,7 @@ use crate::secure_memory::SecureMemory;
 use crate::{P2PError, Result};
 use rand::RngCore;
 use serde::{Deserialize, Serialize};
-use sha2::{Digest, Sha256};
+use sha2::Sha256;
 use std::collections::HashMap;
 use std::fs::{File, OpenOptions};
 use std::io::{Read, Seek, Write};
@@ -797,20 +797,18 @@ impl<T: Serialize + for<'de> Deserialize<'de> + Clone + PartialEq + Send + Sync 
             ))
         })?;
 
-        // Calculate checksum
-        let mut hasher = Sha256::new();
-        hasher.update(&snapshot_data);
-        let checksum: [u8; 32] = hasher.finalize().into();
-
-        // Create snapshot header
-        let header = SnapshotHeader {
+        // Create snapshot header; the checksum is a MAC under the store key over
+        // the other header fields and the data, so that a snapshot written by
+        // another store (or an edited header) is not accepted
+        let mut header = SnapshotHeader {
             version: WAL_VERSION,
             created_at: current_timestamp(),
             last_transaction_id,
             entry_count: current_state.len() as u64,
             total_size: snapshot_data.len() as u64,
-            checksum,
+            checksum: [0u8; 32],
         };
+        header.checksum = self.calculate_snapshot_mac(&header, &snapshot_data)?;
 
         // Write snapshot to temp file
         {
@@ -932,9 +930,7 @@ impl<T: Serialize + for<'de> Deserialize<'de> + Clone + PartialEq + Send + Sync 
                 Ok((header, loaded_state, data)) => {
                     // Verify checksum over the bytes that were read (re-serialising
                     // the map would not reproduce them: HashMap order is arbitrary)
-                    let mut hasher = Sha256::new();
-                    hasher.update(&data);
-                    let checksum: [u8; 32] = hasher.finalize().into();
+                    let checksum = self.calculate_snapshot_mac(&header, &data)?;
 
                     if checksum != header.checksum {
                         stats.corruption_events.push(CorruptionEvent {
@@ -1179,6 +1175,28 @@ impl<T: Serialize + for<'de> Deserialize<'de> + Clone + PartialEq + Send + Sync 
             }
             None => mac.update(&[0u8]),
         }
+
+        Ok(mac.finalize().into_bytes().into())
+    }
+
+    /// Calculate the keyed checksum of a snapshot (header fields except the
+    /// checksum itself, then the serialized data)
+    fn calculate_snapshot_mac(&self, header: &SnapshotHeader, data: &[u8]) -> Result<[u8; 32]> {
+        use hmac::{Hmac, Mac};
+        type HmacSha256 = Hmac<Sha256>;
+
+        let mut mac = HmacSha256::new_from_slice(self.hmac_key.as_slice()).map_err(|e| {
+            P2PError::Security(SecurityError::InvalidKey(
+                format!("Failed to create HMAC: {e}").into(),
+            ))
+        })?;
+
+        mac.update(&header.version.to_le_bytes());
+        mac.update(&header.created_at.to_le_bytes());
+        mac.update(&header.last_transaction_id.to_le_bytes());
+        mac.update(&header.entry_count.to_le_bytes());
+        mac.update(&header.total_size.to_le_bytes());
+        mac.update(data);
 
         Ok(mac.finalize().into_bytes().into())
     }
@@ -1542,9 +1560,7 @@ impl<T: Serialize + for<'de> Deserialize<'de> + Clone + PartialEq + Send + Sync 
         let (header, _state, data) = self.load_snapshot(path).await?;
 
         // Verify checksum over the bytes that were read
-        let mut hasher = Sha256::new();
-        hasher.update(&data);
-        let checksum: [u8; 32] = hasher.finalize().into();
+        let checksum = self.calculate_snapshot_mac(&header, &data)?;
 
         if checksum != header.checksum {
             return Err(P2PError::Storage(
